@@ -31,8 +31,15 @@ def parse(name):
 
 def compile_witness(ctx, name, meta):
     cfg = meta["config"]
-    extract.ensure_target_current(cfg)
     fdir = ctx.facts_dir(cfg)
+    # hold the configuration's lock from the consistency check to the end of the rustc run: the cached rmeta is only valid together
+    # with the dependency artefacts that are in the shared target directory right now
+    with extract.config_lock(cfg):
+        extract.ensure_target_current(cfg, locked=True)
+        return _compile(name, meta, cfg, fdir)
+
+
+def _compile(name, meta, cfg, fdir):
     rmeta = os.path.join(fdir, "libspecs.rmeta")
     deps = os.path.join(extract.CACHE, "target", cfg, "debug", "deps")
     out = os.path.join(extract.CACHE, "witness-out")
@@ -40,7 +47,7 @@ def compile_witness(ctx, name, meta):
     env = dict(os.environ)
     env["LD_LIBRARY_PATH"] = extract.sysroot_lib() + ":" + env.get("LD_LIBRARY_PATH", "")
     cmd = ["rustc", "+nightly", "--edition", "2021", "--crate-type", "lib", "--crate-name", "w_" + re.sub(r"\W", "_", name),
-           "--emit=metadata", "-o", os.path.join(out, name + ".rmeta"), "-L", "dependency=" + deps,
+           "--emit=metadata", "-o", os.path.join(out, "%s-%d.rmeta" % (name, os.getpid())), "-L", "dependency=" + deps,
            "--extern", "specs=" + rmeta, "--error-format=json", "-Awarnings", meta["path"]]
     import glob
     for ex in [x.strip() for x in meta.get("extern", "").split(",") if x.strip()]:
@@ -49,6 +56,10 @@ def compile_witness(ctx, name, meta):
             raise extract.InfraError("witness %s needs crate %s which is not in %s" % (name, ex, deps))
         cmd[-1:-1] = ["--extern", "%s=%s" % (ex, cands[-1])]
     r = subprocess.run(cmd, capture_output=True, text=True, env=env)
+    try:
+        os.remove(os.path.join(out, "%s-%d.rmeta" % (name, os.getpid())))
+    except OSError:
+        pass
     diags = []
     for line in r.stderr.splitlines():
         try:
